@@ -271,12 +271,13 @@ impl S13 {
                 // `before` plus the legitimately applied prefix
                 let mut mid = before.clone();
                 if applied > 0 {
-                    for (k, (h, _)) in items[..applied].iter().enumerate() {
-                        let upto = w.order.len() - applied + k + 1;
-                        mid.stored[*h as usize] = Some(self.ids[*h as usize][items[k].1 as usize]);
-                        mid.roots[*h as usize] = Some(self.ref_root(&w.order[..upto]));
+                    // whatever the applied prefix recorded (its exactness, and that of
+                    // Latest, is judged by `check_exact` below, not here)
+                    for (h, _) in &items[..applied] {
+                        mid.stored[*h as usize] = after.stored[*h as usize];
+                        mid.roots[*h as usize] = after.roots[*h as usize];
                     }
-                    mid.latest = Some((self.ref_root(&w.order), w.order.len() as u64));
+                    mid.latest = after.latest;
                 }
                 self.refused_or_violation(opname, hc, r.is_ok(), &mid, &after).map_err(|mut v| {
                     v.msg = format!("{label}{items:?}, entry #{j}: {}", v.msg);
@@ -443,9 +444,6 @@ impl Subject for S13 {
         obs.contains("refused") || obs.contains(" ok ")
     }
 
-    fn required_labels(&self) -> Vec<String> {
-        ["Insert", "Replace", "Take", "Remove", "InsertBatch", "InitStorage", "RemoveBatch", "Commit"].iter().map(|s| s.to_string()).collect()
-    }
 }
 
 pub fn run(cli: &Cli) {
@@ -464,6 +462,7 @@ pub fn run(cli: &Cli) {
     let s = S13::new(thorough);
     let b = Bounds::new(cli.tier.pick(5, 7), cli);
     let r = explore(&s, &b);
+    crate::require_labels(&r, &["Insert", "Replace", "Take", "Remove", "InsertBatch", "InitStorage", "RemoveBatch", "Commit"]);
     run.add(r);
     run.assume("leaf data of block i = its block id (BlockEncoder); reference = fuel_merkle::binary::in_memory::MerkleTree (trusted)");
     run.assume("'fail' is read as: the call returns Err AND the stored block and every recorded root (per-height and Latest) are unchanged; StorageMutate::insert on an occupied height counts as an attempt to replace");
